@@ -10,7 +10,7 @@ from pbt.harness import Session
 PROP = "C12"
 RULE = (
     "subcheck 'generated': SequOOL x n in 10..600 (thorough ..5000) x partition x K x d x box x reward laws with ties/negatives x "
-    "T <= n, drawn by Hypothesis; subcheck 'all-n': every n in 10..600 (thorough ..3000) on Binary and 3-ary partitions for the full "
+    "T <= n, drawn by Hypothesis; subcheck 'all-n': every n in 10..1000 (thorough ..3000) on Binary and 3-ary partitions for the full "
     "budget (enumerated). Oracle, from the make_children calls recorded inside each pull and the harness ledger: h_max = floor(n/H_n) "
     "in exact Fraction arithmetic; the first opening is the root; openings are ordered by depth without skipping one; at most "
     "floor(h_max/h) openings at depth h and none beyond h_max; depth h+1 is entered only when depth h used its budget or has no "
@@ -157,7 +157,7 @@ def check_case(case):
 
 
 def all_n_cases(tier):
-    nmax = 600 if tier == "quick" else 3000
+    nmax = 1000 if tier == "quick" else 3000
     out = []
     for n in range(10, nmax + 1):
         for ps in ({"cls": "BinaryPartition"}, {"cls": "KaryPartition", "K": 3}):
@@ -189,8 +189,8 @@ def run_shard(ctx):
     cases = all_n_cases(ctx.tier)
     ctx.enumerate("all-n", cases, check_case,
                   exhaustive_note="SequOOL full-budget runs for every n in 10..%d on Binary and 3-ary partitions of [0,1] (%d runs)"
-                  % (600 if quick else 3000, len(cases)))
+                  % (1000 if quick else 3000, len(cases)))
     ctx.drive("generated", gen.run_case(names=["SequOOL"], n_range=(10, 600) if quick else (10, 5000), script_prob=0.25,
                                         full_T_prob=0.6, T_min=5,
                                         laws=["ties", "nonpos_ties", "noise", "peak", "negative", "const", "large", "bump"]),
-              check_case, ctx.budget(2400, 30000))
+              check_case, ctx.budget(10000, 60000))
